@@ -203,6 +203,12 @@ func init() {
 					continue
 				}
 				c.Count("family:" + cs.Family)
+				// the bytecode hypothesis of the Lean theorems (ModulePattern), on the real compiler output
+				if v := conc.ModulePattern(bc); v != "" {
+					c.Violation(PropViolation{Property: "C08", What: "compiled bytecode violates the module-load pattern assumed by C08_shared (a shared module object could reach the stack uncopied): " + v,
+						Input: cs.Src, Sig: "C08:module-pattern"})
+				}
+				c.Count("module-pattern-scanned")
 				var solo []string
 				var diffs []conc.Diff
 				if unsafe {
